@@ -59,7 +59,7 @@ def region_roll_sign(msg, name):
     return F.bit(mb, 1) == 0 and F.bit(mb, 2) == 1 and F.field(mb, 3, 11) == 0
 
 
-@harness(("C12", "C14", "C17"), inputs={"msg": HexStr(28), "name": Choice(*ISNAMES)},
+@harness(("C12", "C14"), inputs={"msg": HexStr(28), "name": Choice(*ISNAMES)},
          functions=[D + n[2:] + "." + n for n in ISNAMES], body_of=[D + n[2:] + "." + n for n in ISNAMES],
          overrides={D + "17.cap17": cap17_only_bds20}, regions=["region_roll_sign"], idealised=True,
          note="is60 compares IAS with an uninterpreted MACH2CAS(mach, altitude)")
@@ -68,7 +68,7 @@ def isnn_body(msg, name):
         "isNN == status/reserved-bit format rules and plausibility envelope of the register (never raises)"
 
 
-@harness(("C12", "C14", "C17"), inputs={"msg": HexStr(28), "mrar": Choice(False, True)},
+@harness(("C12", "C14"), inputs={"msg": HexStr(28), "mrar": Choice(False, True)},
          functions=["pyModeS.decoder.bds.infer"], body_of=["pyModeS.decoder.bds.infer"], idealised=True)
 def infer_body(msg, mrar):
     assert outcome(BDS.infer, msg, mrar) == outcome(bds_spec.infer, msg, mrar), \
